@@ -77,9 +77,11 @@ def dict_to_stix2(stix_dict, allow_custom=False, interoperability=False, version
 
     if not version:
         version = detect_spec_version(stix_dict)
-    elif version not in registry.STIX2_OBJ_MAPS:
-        # (otherwise no class is found for any type, and with allow_custom the
-        # content would be passed through without any validation)
+
+    if version not in registry.STIX2_OBJ_MAPS:
+        # (named, or taken from a junk "spec_version" in the content.  Otherwise
+        # no class is found for any type, and with allow_custom the content
+        # would be passed through without any validation.)
         raise ParseError("Unsupported STIX version: %r" % (version,))
 
     obj_type = stix_dict["type"]
@@ -145,7 +147,8 @@ def parse_observable(data, _valid_refs=None, allow_custom=False, interoperabilit
 
     if not version:
         version = detect_spec_version(obj)
-    elif version not in registry.STIX2_OBJ_MAPS:
+
+    if version not in registry.STIX2_OBJ_MAPS:
         raise ParseError("Unsupported STIX version: %r" % (version,))
 
     obj_type = obj["type"]
